@@ -41,7 +41,7 @@ COMPONENTS = {
              'PEP-3333 environ (repeated headers joined with ", ")',
              'scripted SMTP client'],
 }
-BUDGET = {'quick': 20000, 'thorough': 500000}
+BUDGET = {'quick': 30000, 'thorough': 500000}
 PROBES = ['split>=2', 'split>=3', 'failure-first-write', 'failure-last-write',
           'failure-middle-write', 'slow-write', 'qerr-with-reply',
           'non-queueerror', 'proxy-partial-result', 'proxy-whole-failure',
